@@ -445,6 +445,21 @@ template <class Data, int NV, class Rhs, int NR> void runRows(long kk, uint64_t 
         { CellGroup v(cp); checkView(v, "array-constructor view"); }
         { CellGroup v(cp[0].first, cp[0].second, cp[1].first, cp[1].second, cp[2].first, cp[2].second); checkView(v, "pointer/size-constructor view"); }
         { CellGroup v(cp); CellGroup w(std::move(v)); checkView(w, "moved view"); }
+        {   // deferred view: the raw-memory constructor is told not to read the memory yet (inInitFromMemory = false), the bytes arrive
+            // afterwards and initMemoryBlockHeader() derives the view from them - how a runtime with its own buffers uses the containers
+            std::array<std::pair<unsigned char*, size_t>, 3> dp;
+            for (int b = 0; b < 3; ++b) { dp[size_t(b)] = {static_cast<unsigned char*>(malloc(cp[size_t(b)].second ? cp[size_t(b)].second : 1)), cp[size_t(b)].second}; memset(dp[size_t(b)].first, 0xA5, dp[size_t(b)].second); }
+            {
+                CellGroup v(dp[0].first, dp[0].second, dp[1].first, dp[1].second, dp[2].first, dp[2].second, false);
+                for (int b = 0; b < 3; ++b) memcpy(dp[size_t(b)].first, cp[size_t(b)].first, cp[size_t(b)].second);
+                v.initMemoryBlockHeader();
+                auto saved = cp; cp = dp;           // checkView compares addresses with the buffers the view was built on
+                checkView(v, "deferred view (inInitFromMemory=false + initMemoryBlockHeader)");
+                cp = saved;
+                res.ev("deferred-views-checked");
+            }
+            for (auto& c : dp) free(c.first);
+        }
         {   // partial view without the local part (upward-pass callbacks): header, indices and multipoles as in the original
             CellGroup v(cp[0].first, cp[0].second, cp[1].first, cp[1].second, nullptr, 0);
             if (v.getNbCells() != g.getNbCells() || v.getStartingSpacialIndex() != g.getStartingSpacialIndex()) res.fail("c14:partial-cell-view-header", "level " + vh::str(L));
